@@ -22,7 +22,7 @@ STUBS = []
 ASSUMPTIONS = ["listeners are distinct callables"]
 
 # skeleton: string over R1 R2 (register on e1 / e2) and D (dispatch round)
-QUICK = ["R1 D", "D R1 D", "R1 D D", "R1 R1 D D R1 D", "R1 D R1 R1 D", "R2 D R2 R1 D", "R1 R1 D", "R1 R2 D", "R1 D R1 D", "R1 R1 R1 D", "R1 R2 R1 D", "R1 R1 D R1 D", "R2 R1 D R2 D", "R1 D R1 D R1 D",
+QUICK = ["R1 S1 D", "R1 S2 D", "R1 R1 S1 D D", "R1 R2 S2 S1 D", "N1 D D", "R1 N1 D D", "N1 R1 D R1 D D", "R1 D", "D R1 D", "R1 D D", "R1 R1 D D R1 D", "R1 D R1 R1 D", "R2 D R2 R1 D", "R1 R1 D", "R1 R2 D", "R1 D R1 D", "R1 R1 R1 D", "R1 R2 R1 D", "R1 R1 D R1 D", "R2 R1 D R2 D", "R1 D R1 D R1 D",
          "R1 R1 R1 R1 D", "R1 R2 D R2 R1 D", "R1 R1 D R1 R1 D"]
 THOROUGH = QUICK + ["R1 R2 D R2 R1 R2 D", "R1 R2 R1 R2 D", "R1 R1 R1 D R1 D", "R1 D R1 D R1 R1 D",
                     "R1 R1 R1 R1 R1 D", "R1 R1 R2 D R1 R1 D D", "R1 R1 D R1 D R1 R1 D"]
@@ -47,18 +47,46 @@ def _run(skel, prios, stops):
                 event.stop_propagation()
         return listener
 
+    pending = []           # listeners registered from inside a listener during the dispatch that is running: they take part from the NEXT dispatch on
+
+    def make_nesting(i, ev, prio):
+        done = []
+
+        def listener(event, event_name, dispatcher):
+            log.append((i, event_name))
+            if not done:
+                done.append(1)
+                child = make(100 + i, False)
+                dispatcher.add_listener(ev, child, prio)
+                pending.append((ev, prio, False, child, 100 + i))
+        return listener
+
     k = 0
     for step in skel.split():
         if step[0] == "R":
             ev = EVENTS[int(step[1]) - 1]
             fn = make(k, stops[k])
             d.add_listener(ev, fn, prios[k])
-            regs.append((ev, prios[k], stops[k], fn, k))
+            regs.append((ev, prios[k], stops[k], fn, k, len(regs)))
+            k += 1
+        elif step[0] == "S":                 # the FIRST callable is registered once more (on this step's event, with this step's priority): it is then called once per registration
+            ev = EVENTS[int(step[1]) - 1]
+            if not regs:
+                return True
+            fn = regs[0][3]
+            d.add_listener(ev, fn, prios[k])
+            regs.append((ev, prios[k], regs[0][2], fn, regs[0][4], len(regs)))
+            k += 1
+        elif step[0] == "N":                 # a listener that, the first time it is called, registers a further listener for the same event (priority of this step)
+            ev = EVENTS[int(step[1]) - 1]
+            fn = make_nesting(k, ev, prios[k])
+            d.add_listener(ev, fn, 0)
+            regs.append((ev, 0, False, fn, k, len(regs)))
             k += 1
         else:
             for ev in EVENTS:
                 mine = [r for r in regs if r[0] == ev]
-                order = sorted(mine, key=lambda r: (-r[1], r[4]))
+                order = sorted(mine, key=lambda r: (-r[1], r[5]))
                 expected = []
                 for r in order:
                     expected.append((r[4], ev))
@@ -68,6 +96,12 @@ def _run(skel, prios, stops):
                 e = d.dispatch(ev)
                 if log != expected:
                     return False
+                if pending:
+                    for pr in pending:
+                        regs.append(pr + (len(regs),))
+                    del pending[:]
+                    mine = [r for r in regs if r[0] == ev]
+                    order = sorted(mine, key=lambda r: (-r[1], r[5]))
                 if e.is_propagation_stopped() != any(r[2] for r in order):
                     return False
                 if d.has_listeners(ev) != bool(mine):
@@ -76,13 +110,13 @@ def _run(skel, prios, stops):
                 if len(got) != len(order) or any(g is not r[3] for g, r in zip(got, order)):
                     return False
                 for r in mine:
-                    if d.get_listener_priority(ev, r[3]) != r[1]:
-                        return False
+                    if sum(1 for q in mine if q[3] is r[3]) == 1 and d.get_listener_priority(ev, r[3]) != r[1]:
+                        return False            # (the priority of a callable registered twice on one event is not a single number)
             if d.has_listeners() != bool(regs):
                 return False
             allmap = d.get_listeners()
             for ev in EVENTS:
-                order = sorted([r for r in regs if r[0] == ev], key=lambda r: (-r[1], r[4]))
+                order = sorted([r for r in regs if r[0] == ev], key=lambda r: (-r[1], r[5]))
                 got = allmap.get(ev, [])
                 if len(got) != len(order) or any(g is not r[3] for g, r in zip(got, order)):
                     return False
@@ -150,7 +184,7 @@ def conditions(tier):
     t = 90 if tier == "quick" else 900
     conds = []
     for skel in (QUICK if tier == "quick" else THOROUGH):
-        nreg = sum(1 for s in skel.split() if s[0] == "R")
+        nreg = sum(1 for s in skel.split() if s[0] in "RSN")
         conds.append({"name": "seq[%s]" % skel.replace(" ", ""), "fn": seq3 if nreg <= 3 else seq, "timeout": t, "part": {"skel": skel, "nreg": nreg},
                       "bounds": "skeleton %s: %d priorities in {-1,0,1} and %d stop bits symbolic" % (skel, nreg, nreg)})
     n = 3 if tier == "quick" else 4
